@@ -13,7 +13,7 @@ VARIABLE l
 Init == l \in 1..Len(Edges)
 Next == UNCHANGED l
 
-UxSet(p) == { [id |-> p.unspent[i].id, coins |-> p.unspent[i].coins, hours |-> p.unspent[i].hours, time |-> p.unspent[i].time] : i \in DOMAIN p.unspent }
+UxSet(p) == { [id |-> p.unspent[i].id, addr |-> p.unspent[i].addr, coins |-> p.unspent[i].coins, hours |-> p.unspent[i].hours, time |-> p.unspent[i].time] : i \in DOMAIN p.unspent }
 StateOf(p) == [len |-> p.len, headSeq |-> p.headSeq, headTime |-> p.headTime, headHash |-> p.headHash,
                genesisHash |-> p.genesisHash, uxhash |-> p.uxhash, unspent |-> UxSet(p), pool |-> Rng(p.pool)]
 
@@ -26,7 +26,8 @@ Reason(e) ==
      ELSE IF (e.res = "accepted") # ok THEN (IF ok THEN "valid-rejected" ELSE "invalid-accepted")   \* C04 (and C01/C02 by the flaw)
      ELSE IF ~SupplyOK(t, e.volume) THEN "supply"                                       \* C01
      ELSE IF ok /\ t.unspent # Apply(s, e.blk, e.post.uxhash).unspent THEN "unspent"    \* C02: unspent' = unspent - spent + created
-     ELSE IF ok /\ t # Apply(s, e.blk, e.post.uxhash) THEN "head-or-pool"
+     ELSE IF ok /\ t.pool # Apply(s, e.blk, e.post.uxhash).pool THEN "pool"                 \* C06: a confirmed transaction leaves the pool
+     ELSE IF ok /\ t # Apply(s, e.blk, e.post.uxhash) THEN "head"
      ELSE IF ok /\ ~(e.stored.sigOK /\ e.stored.hash = e.blk.hash) THEN "stored"       \* C04: the signature covers the stored header
      ELSE IF ok /\ e.post.ntxns # e.pre.ntxns + Len(e.blk.txns) THEN "history"
      ELSE IF ~ok /\ (t # s \/ e.post.ntxns # e.pre.ntxns) THEN "rejected-but-changed"   \* C04: a rejected block changes nothing
